@@ -19,6 +19,8 @@
 #define COVER(c, msg)
 #define COVER_ALT(c, msg)
 #endif
+/* a limit of the harness's environment model: reported as "undecided", and nothing behind it is explored */
+#define CV_LIMIT(c, t) do { __CPROVER_assert((c), t); __CPROVER_assume(c); } while (0)
 #define ASSUME(c) __CPROVER_assume(c)
 
 #define HDR(p) ((struct Header*)((char*)(p) - sizeof(struct Header)))
